@@ -97,6 +97,8 @@ ENUMERATORS = ['dfa_algorithms.dfa_words_up_to_n', 'nfa_algorithms.nfa_words_up_
 
 
 def check_C02(ctx, rep):
+    small_models2.check_enumerators(ctx, rep, ctx.prog.func('dfa_algorithms.dfa_words_up_to_n'), ctx.prog.func('nfa_algorithms.nfa_words_up_to_n'), ctx.prog.func('regexp_algorithms.regexp_words_up_to_n'))
+    rep.clauses_decided.append('dfa_words_up_to_n, nfa_words_up_to_n and regexp_words_up_to_n return exactly the accepted / denoted words of length at most n on the model DFAs, NFAs and expressions for n = 0..4 (0..3), n running through 0 and the length of the shortest accepted word (M24, finite model)')
     small_models2.check_cfg_words(ctx, rep, ctx.prog.func('cfg_algorithms.cfg_words_up_to_n'))
     rep.clauses_decided.append('cfg_words_up_to_n returns exactly the words up to length n that the start variable derives on five model grammars in Chomsky normal form for n = 0..4, among them one where a variable other than the leftmost must be expanded (M18, finite model)')
     rep.clauses_decided += ['no enumerated word is longer than n and every level 0..n can be contributed, for n = 0..4 including n = 0 and n = 1 (R-BOUND, abstract interpretation over word lengths)',
